@@ -68,10 +68,21 @@ func checkC17(c *Ctx, r *Result, tier string) {
 					Msg: key + ": containment is decided by strings.HasPrefix on path strings instead of on the relative path's first component: the separator boundary is lost — root `code` contains `code.bak/secret` and `code2/x`, reachable with `..` segments"})
 			}
 		}
-		r.Undecide("no containment predicate (func(string,string)(bool,error) using filepath.Rel) found")
-		return
+		// the test may be written out in the Resolve implementation itself
+		inline := false
+		for _, impl := range impls {
+			if len(callSites(impl, func(name string, _ ssa.CallInstruction) bool { return name == "path/filepath.Rel" })) > 0 {
+				inline = true
+				r.Instance("R17-anchor", c.FuncKey(impl), c.Pos(impl.Pos()), "found", "containment test written out in the Resolve implementation (filepath.Rel and its conjuncts)", false)
+			}
+		}
+		if !inline {
+			r.Undecide("no containment predicate (func(string,string)(bool,error) using filepath.Rel) and no filepath.Rel in a Resolve implementation found")
+			return
+		}
+	} else {
+		r.Instance("R17-anchor", c.FuncKey(pred), c.Pos(pred.Pos()), "found", "containment predicate", false)
 	}
-	r.Instance("R17-anchor", c.FuncKey(pred), c.Pos(pred.Pos()), "found", "containment predicate", false)
 
 	// confining helpers: functions returning (string, error) whose string, whenever the error is nil,
 	// is the very value the predicate accepted on that path
@@ -80,7 +91,7 @@ func checkC17(c *Ctx, r *Result, tier string) {
 		if h.Parent() != nil || h.Signature.Results().Len() != 2 || h.Signature.Results().At(0).Type().String() != "string" || h.Signature.Results().At(1).Type().String() != "error" {
 			continue
 		}
-		if len(callSites(h, func(_ string, ci ssa.CallInstruction) bool { return ci.Common().StaticCallee() == pred })) == 0 {
+		if pred == nil || len(callSites(h, func(_ string, ci ssa.CallInstruction) bool { return ci.Common().StaticCallee() == pred })) == 0 {
 			continue
 		}
 		good, seenOK := true, false
@@ -128,8 +139,9 @@ func checkC17(c *Ctx, r *Result, tier string) {
 
 	// ---- R17a -----------------------------------------------------------------------------------
 	nFile := 0
+	nInline := map[*ssa.Call]bool{}
 	for _, impl := range impls {
-		reach := c.Reachable([]*ssa.Function{impl}, func(f *ssa.Function) bool { return f == pred })
+		reach := c.Reachable([]*ssa.Function{impl}, func(f *ssa.Function) bool { return pred != nil && f == pred })
 		for _, fn := range reach.Order {
 			key := c.FuncKey(fn)
 			sites := callSites(fn, func(name string, _ ssa.CallInstruction) bool { _, ok := fileAPIs[name]; return ok })
@@ -171,9 +183,73 @@ func checkC17(c *Ctx, r *Result, tier string) {
 						}
 					}
 				}
+				// the test written out: rel, err := filepath.Rel(root, p) with err == nil,
+				// ¬HasPrefix(rel, ".."+separator) and rel ≠ ".." known on this path
+				allInstrs(fn, func(x ssa.Instruction) {
+					rc, ok := x.(*ssa.Call)
+					if !ok || callName(rc) != "path/filepath.Rel" || len(rc.Call.Args) != 2 || !dominates(rc, in) || found {
+						return
+					}
+					nInline[rc] = true
+					if st.canon(rc.Call.Args[1]) != path {
+						why = fmt.Sprintf("the value checked (%s) is not the value opened (%s)", accessPath(rc.Call.Args[1]), accessPath(ci.Common().Args[idx]))
+						return
+					}
+					if rootOf(rc.Call.Args[0]) == rootOf(rc.Call.Args[1]) || st.canon(rc.Call.Args[0]) == path {
+						why = "filepath.Rel is not applied to (root, path)"
+						return
+					}
+					var relV, errV ssa.Value
+					for _, ref := range *rc.Referrers() {
+						if e, isE := ref.(*ssa.Extract); isE {
+							if e.Index == 0 {
+								relV = e
+							} else {
+								errV = e
+							}
+						}
+					}
+					if relV == nil || errV == nil {
+						why = "a result of filepath.Rel is ignored"
+						return
+					}
+					if st.Get(errV, o) != AvNil {
+						why = "reached on a path where the error of filepath.Rel is not known to be nil (Rel returns \"\" when it fails, which passes the prefix test)"
+						return
+					}
+					prefOK, dotsOK := false, false
+					allInstrs(fn, func(y ssa.Instruction) {
+						switch z := y.(type) {
+						case *ssa.Call:
+							if callName(z) == "strings.HasPrefix" && len(z.Call.Args) == 2 && st.canon(z.Call.Args[0]) == st.canon(relV) && prefixIsDotDotSep(z.Call.Args[1]) && st.Get(z, o) == AvNil {
+								prefOK = true
+							}
+						case *ssa.BinOp:
+							if (z.Op == token.NEQ || z.Op == token.EQL) && st.canon(z.X) == st.canon(relV) {
+								if cs, isC := constString(z.Y); isC && cs == ".." {
+									want := AvNonNil
+									if z.Op == token.EQL {
+										want = AvNil
+									}
+									if st.Get(z, o) == want {
+										dotsOK = true
+									}
+								}
+							}
+						}
+					})
+					switch {
+					case !prefOK:
+						why = "reached on a path where the relative path is not known not to start with \"..\"+separator"
+					case !dotsOK:
+						why = "reached on a path where the relative path is not known to differ from \"..\""
+					default:
+						found = true
+					}
+				})
 				allInstrs(fn, func(x ssa.Instruction) {
 					pc, ok := x.(*ssa.Call)
-					if !ok || pc.Call.StaticCallee() != pred || !dominates(pc, in) {
+					if !ok || pred == nil || pc.Call.StaticCallee() != pred || !dominates(pc, in) {
 						return
 					}
 					if st.canon(pc.Call.Args[1]) != path {
@@ -262,7 +338,15 @@ func checkC17(c *Ctx, r *Result, tier string) {
 	r.Floor("R17b", n, 1)
 
 	// ---- R17c -----------------------------------------------------------------------------------
-	c17Predicate(c, r, pred)
+	if pred != nil {
+		c17Predicate(c, r, pred)
+	} else {
+		// written out: the conjuncts are part of R17a at every file call
+		r.Floor("R17c-inline-tests", len(nInline), 1)
+		for rc := range nInline {
+			r.Instance("R17c", c.FuncKey(rc.Parent())+"#inline", c.Pos(c.InstrPos(rc)), "ok", "the three conjuncts (err = nil, ¬HasPrefix(rel, \"..\"+sep), rel ≠ \"..\") are required path by path at every file call (R17a)", true)
+		}
+	}
 }
 
 func c17Predicate(c *Ctx, r *Result, pred *ssa.Function) {
